@@ -5,13 +5,20 @@
     (track_pos, tiles, centred, blocks, via_okb, nets_okb), evaluated by Tetris/CompileCheck.v.
 
     What is proved: the per-track theorems (1)-(5), the track-position theorems (6)-(7), the
-    per-track realisation (8) and the absence of panics (10).  The whole-cell statement [C08_full]
-    is a Definition: its proof needs the composition of (1)-(8) over the layers, periods and
-    tracks of a cell (see the comment at [C08_full]); it is covered by the correspondence run,
-    which evaluates it on the implementation's output for every generated case. *)
+    per-track realisation (8), the absence of panics (10), and -- proofs in
+    Tetris/CompileFull_proofs.v -- the composition over the layers, periods and tracks of a cell:
+    vias and centres (11), per-period selection (12)-(13), per-layer tiling (14)-(15), nets (16)-(17)
+    and the whole cell (19)-(21).  The whole-cell statement [C08_full] AS FIRST WRITTEN is refuted by a
+    closed witness (18): the specification answers 9xx ("not judged") where tracks of different
+    kinds coincide, and 9xx is not [].  The whole-cell theorems state what the correspondence run
+    judges (no code below 900), resp. [] when no such coincidence exists.  Well-formedness
+    ([wf_cellb], clause [crossing_clearb] of [assign_wfb], added 2026-10-01 by coordinator decision)
+    excludes an assignment whose crossing ROUNDED DOWN, as `center` computes it for a track of odd
+    width, sits on the end of a cut / blocked span; (22) shows on the real code's output what
+    happens there (a net lost, or a net on the wrong piece); the clause is vacuous for even widths. *)
 From Coq Require Import ZArith List Bool Permutation.
 From L21 Require Import Tetris.Stack Tetris.Tracks Tetris.Compile Tetris.CompileSpec Tetris.CompileCheck
-                        Tetris.Compile_proofs.
+                        Tetris.Compile_proofs Tetris.CompileFull_proofs.
 Import ListNotations.
 Local Open Scope Z_scope.
 
@@ -120,8 +127,9 @@ Theorem C08_track_realised_partial :
                      sh_across (vm_spec vm) s = (td_start d, td_start d + td_width d)) shapes.
 Proof. exact track_realised. Qed.
 
-(** (9) THE FULL STATEMENT (not proved as a theorem; evaluated on the implementation's output
-    by the correspondence run).  For the repaired code: whenever compilation returns Ok, the shapes
+(** (9) THE FULL STATEMENT AS FIRST WRITTEN (evaluated on the implementation's output by the
+    correspondence run, which counts codes >= 900 as "not judged"; as a statement with `= []` it is
+    refuted, see (18); the proved whole-cell theorems are (19)-(21)).  For the repaired code: whenever compilation returns Ok, the shapes
     of every well-formed cell pass the specification: per layer and track the wire rectangles with
     the requested cuts and the blocked spans tile [0, outline], at the specification's track
     position; one via per assignment, of the via layer's size, centred on the crossing; the
@@ -203,3 +211,189 @@ Print Assumptions C08_orig_reflect_refuted.
 Print Assumptions C08_orig_underflow_panics.
 Print Assumptions C08_orig_bounds_panics.
 Print Assumptions C08_orig_odd_refuted.
+
+(** * The composition over layers, periods and tracks (proofs: Tetris/CompileFull_proofs.v) *)
+
+(** (11) VIAS AND CENTRES.  Whenever the repaired compiler returns Ok, for every well-formed cell: among
+    the (normalised) shapes there are exactly as many via rectangles as assignments; every
+    assignment has a via passing [via_okb] -- on the raw layer of the via layer between its two
+    metals, of exactly that via layer's size, centred (within half a unit) on the crossing of the
+    two tracks' centres as the SPECIFICATION positions them, carrying the net -- and every via
+    rectangle is the via of some assignment. *)
+Theorem C08_vias_and_centres :
+  forall st cells out, compile fixed st cells = Ok out ->
+    Forall2 (fun c shapes => wf_cellb st c = true -> vias_okb st c shapes = true) cells out.
+Proof. exact compile_vias. Qed.
+
+(** [vias_okb] is literally the via clause of [spec_cell]. *)
+Theorem C08_vias_okb_is_spec_clause :
+  forall st c shapes0,
+    vias_okb st c shapes0 =
+    (let shapes := map norm shapes0 in
+     let vs := filter (is_via_shape st) shapes in
+     (zlen vs =? zlen (c_assigns c))
+     && forallb (fun a => existsb (via_okb st a) vs) (c_assigns c)
+     && forallb (fun s => existsb (fun a => via_okb st a s) (c_assigns c)) vs).
+Proof. reflexivity. Qed.
+
+(** (12) PER-PERIOD SELECTION.  For layer l (metal m, validated as vm), period q and the r-th signal track of
+    the period -- the one `&mut signals[track % nsig]` selects -- with k = q * nsig + r its number:
+    the spans the exporter blocks on every track of the period are the specification's [blocks];
+    the cuts it applies to that track are exactly the cell's cuts on track (l, k), in order; the
+    bottom / top assignments it applies are exactly the validated assignments whose bottom / top
+    track is (l, k), in order. *)
+Theorem C08_period_selection :
+  forall st vs c vas m l vm q (N r : nat),
+    vs_of st vs -> vm_of m l vm -> (0 < N)%nat -> Z.of_nat N = nsig m -> 0 <= q -> (r < N)%nat ->
+    let tp := temp_period fixed vs c vas vm q in
+    let k := q * nsig m + Z.of_nat r in
+    map bounds (requested (map (block_op vs (m_horiz m)) (tp_blocks tp))) = blocks st c l m q /\
+    map snd (filter (fun x => Nat.eqb (cut_idx N x) r) (tp_cuts tp))
+      = filter (fun x => (x_tl x =? l) && (x_tt x =? k)) (c_cuts c) /\
+    filter (fun x => Nat.eqb (asg_idx N false x) r) (tp_bot tp)
+      = filter (fun v => (fst (va_bot v) =? l) && (snd (va_bot v) =? k)) vas /\
+    filter (fun x => Nat.eqb (asg_idx N true x) r) (tp_top tp)
+      = filter (fun v => (fst (va_top v) =? l) && (snd (va_top v) =? k)) vas.
+Proof. exact period_selection. Qed.
+
+(** (13) EVERY DRAWN TRACK OF A PERIOD in the specification's terms.  The output of one period is its vias
+    followed by the rectangles of a list of drawn tracks; the tracks drawn are a permutation of the
+    specification's tracks of that period (rails and signal tracks, mirrored periods included), and
+    each satisfies [track_real]: its rectangles are the wire segments left after applying, to the
+    fresh full-length track at the specification's position, the blockages of the period, one
+    admissible placement of each of ITS cuts (0 <= a < b <= outline), and ITS net assignments. *)
+Theorem C08_period_tracks :
+  forall st vs c vas l m vm lay,
+    wf_cell st c -> vs_of st vs -> Forall2 (asg_rel st vs c) (c_assigns c) vas ->
+    metal_of st l = Some m -> metal_at vs l = Ok vm ->
+    validate_metal (s_px st) (s_py st) m l = Ok vm -> m_raw m = Some lay ->
+    forall q out, 0 <= q ->
+      period_rel vs vm (along_len st c m) (temp_period fixed vs c vas vm q) q out ->
+      exists vias etr,
+        out = vias ++ concat (map snd etr) /\
+        Forall2 (via_rel vs vm) (tp_bot (temp_period fixed vs c vas vm q)) vias /\
+        Forall (track_real st c l m lay) etr /\
+        Permutation (map fst etr) (period_cts st c m q).
+Proof. exact period_tracks. Qed.
+
+(** (14) PER-LAYER TILING.  For every metal layer of a well-formed compiled cell: on every track whose
+    position no other track of the layer shares, the specification's tiling statement holds (Prop
+    and boolean form): the wire rectangles found AT THE SPECIFICATION'S POSITION of the track,
+    with the blocked spans of its period and an admissible placement of each of its cuts, tile
+    [0, outline]; and every rectangle on the layer's raw layer sits exactly on a track of the cell. *)
+Theorem C08_layer_tiling :
+  forall st cells out, compile fixed st cells = Ok out ->
+    Forall2 (fun c shapes => wf_cellb st c = true ->
+       forall l m, layer_in_cell st c l m ->
+         (forall t, alone_at st c m t ->
+            track_tiled st c l m t (map norm shapes) /\ track_tiledb st c l m t (map norm shapes) = true) /\
+         (forall s, In s (map norm shapes) -> on_layer (m_raw m) s = true ->
+            exists t, In t (tracks_of st c m) /\
+                      sh_across m s = (fst (ct_pos t), fst (ct_pos t) + snd (ct_pos t)))) cells out.
+Proof. exact compile_layer_tiled. Qed.
+
+(** (15) NOTHING ELSE IS DRAWN: every shape is a via rectangle or lies on the raw layer of one of the
+    cell's own metals. *)
+Theorem C08_nothing_else :
+  forall st cells out, compile fixed st cells = Ok out ->
+    Forall2 (fun c shapes => wf_cellb st c = true ->
+       forallb (fun s => is_via_shape st s || is_metal_shape st c s) (map norm shapes) = true) cells out.
+Proof. exact compile_nothing_else. Qed.
+
+(** (16) NETS.  On every track alone at its position the specification's net test holds: a rail's pieces carry the rail's name; on a signal
+    track every piece covering the crossing of an assignment carries its net and every piece
+    carrying a net covers the crossing of an assignment of that net. *)
+Theorem C08_nets :
+  forall st cells out, compile fixed st cells = Ok out ->
+    Forall2 (fun c shapes => wf_cellb st c = true ->
+       forall l m t, layer_in_cell st c l m -> alone_at st c m t ->
+         nets_okb st c l m t (map norm shapes) = true) cells out.
+Proof. exact compile_nets. Qed.
+
+(** (17) RAILS SHARED BETWEEN PERIODS (coinciding rails of one kind, e.g. through the pattern overlap of
+    the repo's sample stack): the group passes the specification's group test -- the non-empty
+    pieces drawn there are exactly the gaps of every member's blocked spans -- and carries the
+    rail's name. *)
+Theorem C08_shared_rails :
+  forall st cells out, compile fixed st cells = Ok out ->
+    Forall2 (fun c shapes => wf_cellb st c = true ->
+       forall l m t k, layer_in_cell st c l m -> In t (tracks_of st c m) -> ct_rail t = Some k ->
+         forallb (fun u => rail_kind_eqb (ct_rail u) (ct_rail t)) (same_track_group t (tracks_of st c m)) = true ->
+         group_tiledb st c l m (same_track_group t (tracks_of st c m)) (pieces_at m (ct_pos t) (map norm shapes)) = true /\
+         nets_okb st c l m t (map norm shapes) = true) cells out.
+Proof. exact compile_shared_rails. Qed.
+
+(** (18) [C08_full] AS FIRST WRITTEN IS FALSE (closed witness [coincide_witness]: pattern sig(100) gap(50)
+    sig(100) with overlap 100 -- the last signal track of a period coincides with the first of the
+    next; [wf_cellb] holds, compile returns Ok, the specification answers [900; 900]). *)
+Theorem C08_full_as_stated_refuted : ~ C08_full.
+Proof. exact full_as_stated_refuted. Qed.
+
+(** (19) THE WHOLE CELL, as the correspondence run judges it: whenever the repaired compiler returns Ok,
+    for every well-formed cell, the specification emits no
+    failure code -- every code it emits is >= 900 (a layer with coinciding tracks of different
+    kinds, which the specification does not judge). *)
+Theorem C08_full_partial_judged :
+  forall st cells out, compile fixed st cells = Ok out ->
+    Forall2 (fun c shapes => wf_cellb st c = true ->
+               forall code, In code (spec_cell st c shapes) -> 900 <= code) cells out.
+Proof. exact compile_spec_judged. Qed.
+
+(** (20) THE WHOLE CELL, [C08_full] with its missing hypothesis: no coinciding tracks of different
+    kinds ([unambiguousb]). *)
+Theorem C08_full_partial_unambiguous :
+  forall st cells out, compile fixed st cells = Ok out ->
+    Forall2 (fun c shapes => wf_cellb st c = true -> unambiguousb st c = true ->
+               spec_cell st c shapes = []) cells out.
+Proof. exact compile_spec_holds. Qed.
+
+(** (21) The clearance clause of well-formedness is implied by it ([half_clearb] collects the clause over a
+    cell), and on stacks whose signal tracks all have even width it is vacuous: it holds for every
+    assignment between two existing tracks. *)
+Theorem C08_wf_half_clear :
+  forall st c, wf_cellb st c = true -> half_clearb st c = true.
+Proof. intros st c H. apply wf_half_clear. apply wf_cellb_wf. exact H. Qed.
+
+Theorem C08_even_widths_clear :
+  forall st c a n b t mb mt cb2 ct2, even_sig_widthsb st = true ->
+    assign_bt a = Some (n, b, t) -> metal_of st (fst b) = Some mb -> metal_of st (fst t) = Some mt ->
+    cross2 st (fst t) (snd t) = Some cb2 -> cross2 st (fst b) (snd b) = Some ct2 ->
+    crossing_clearb st c a = true.
+Proof. exact even_widths_clear. Qed.
+
+(** (22) WHY THE CLEARANCE CLAUSE IS PART OF WELL-FORMEDNESS (closed witness, replayed on the real code: vertical
+    track at x 3..8, centre 5.5 rounded to 5 = end of the span 0..5 blocked by an instance; the cell
+    is not well-formed only because of that clause; it compiles, the wire piece 5..10 covers the
+    crossing and gets no net: the specification would answer [200]). *)
+Theorem C08_clearance_needed :
+  wf_cellb st_oddc cell_oddc = false /\ half_clearb st_oddc cell_oddc = false /\ unambiguousb st_oddc cell_oddc = true /\
+  compile fixed st_oddc [cell_oddc] =
+    Ok [[mkShape 10044 4 4 6 6 (Some 1); mkShape 10020 0 0 0 10 None; mkShape 10020 5 0 10 10 None;
+         mkShape 11020 3 0 8 10 (Some 1)]] /\
+  spec_cell st_oddc cell_oddc
+    [mkShape 10044 4 4 6 6 (Some 1); mkShape 10020 0 0 0 10 None; mkShape 10020 5 0 10 10 None;
+     mkShape 11020 3 0 8 10 (Some 1)] = [200].
+Proof. exact oddc_witness. Qed.
+
+(** Non-vacuity of (19)-(21): the suite's own cell on the repo's sample stack (rails shared between
+    periods) satisfies well-formedness (hence clearance) and unambiguity, and the stack
+    has even signal widths; with C08_nonvacuous, compile returns Ok with 137 rectangles. *)
+Example C08_full_hyps_nonvacuous :
+  all_wfb st_pdka cells_create_lib1 = true /\
+  forallb (half_clearb st_pdka) cells_create_lib1 = true /\ forallb (unambiguousb st_pdka) cells_create_lib1 = true /\
+  even_sig_widthsb st_pdka = true.
+Proof. exact pdka_hyps. Qed.
+
+Print Assumptions C08_vias_and_centres.
+Print Assumptions C08_period_selection.
+Print Assumptions C08_period_tracks.
+Print Assumptions C08_layer_tiling.
+Print Assumptions C08_nothing_else.
+Print Assumptions C08_nets.
+Print Assumptions C08_shared_rails.
+Print Assumptions C08_full_as_stated_refuted.
+Print Assumptions C08_full_partial_judged.
+Print Assumptions C08_full_partial_unambiguous.
+Print Assumptions C08_wf_half_clear.
+Print Assumptions C08_even_widths_clear.
+Print Assumptions C08_clearance_needed.
